@@ -27,16 +27,22 @@ impl GcHeader {
     }
 
     /// Returns the [`GcHeader`]'s current ref count.
+    #[cfg_attr(kani, kani::ensures(|r| *r == verif_kani::view(self).refs))]
     pub(crate) fn ref_count(&self) -> u32 {
         self.ref_count.get()
     }
 
     /// Returns the [`GcHeader`]'s current non-roots count
+    #[cfg_attr(kani, kani::ensures(|r| *r == verif_kani::view(self).non_roots && *r <= verif_kani::MAX))]
     pub(crate) fn non_root_count(&self) -> u32 {
         self.non_root_count.get() & NON_ROOTS_MASK
     }
 
     /// Increments [`GcHeader`]'s non-roots count.
+    #[cfg_attr(kani, kani::requires(verif_kani::inv(verif_kani::view(self))))]
+    #[cfg_attr(kani, kani::modifies(&self.non_root_count))]
+    #[cfg_attr(kani, kani::ensures(|_| verif_kani::inv(verif_kani::view(self))))]
+    #[cfg_attr(kani, kani::ensures(|_| verif_kani::post_inc_non_root_count(old(verif_kani::view(self)), verif_kani::view(self))))]
     pub(crate) fn inc_non_root_count(&self) {
         let non_root_count = self.non_root_count.get() & NON_ROOTS_MASK;
 
@@ -63,16 +69,23 @@ impl GcHeader {
     }
 
     /// Decreases [`GcHeader`]'s current non-roots count.
+    #[cfg_attr(kani, kani::modifies(&self.non_root_count))]
+    #[cfg_attr(kani, kani::ensures(|_| verif_kani::post_reset_non_root_count(old(verif_kani::view(self)), verif_kani::view(self))))]
     pub(crate) fn reset_non_root_count(&self) {
         self.non_root_count
             .set(self.non_root_count.get() & !NON_ROOTS_MASK);
     }
 
     /// Returns a bool for whether [`GcHeader`]'s mark bit is 1.
+    #[cfg_attr(kani, kani::ensures(|r| *r == verif_kani::view(self).marked))]
     pub(crate) fn is_marked(&self) -> bool {
         self.non_root_count.get() & MARK_MASK != 0
     }
 
+    #[cfg_attr(kani, kani::requires(verif_kani::inv(verif_kani::view(self))))]
+    #[cfg_attr(kani, kani::modifies(&self.ref_count))]
+    #[cfg_attr(kani, kani::ensures(|_| verif_kani::inv(verif_kani::view(self))))]
+    #[cfg_attr(kani, kani::ensures(|_| verif_kani::post_inc_ref_count(old(verif_kani::view(self)), verif_kani::view(self))))]
     pub(crate) fn inc_ref_count(&self) {
         // Mark this as `cold` since the ref count will
         // (almost) never overflow.
@@ -95,6 +108,10 @@ impl GcHeader {
         self.ref_count.set(count);
     }
 
+    #[cfg_attr(kani, kani::requires(verif_kani::pre_dec_ref_count(verif_kani::view(self))))]
+    #[cfg_attr(kani, kani::modifies(&self.ref_count))]
+    #[cfg_attr(kani, kani::ensures(|_| verif_kani::inv(verif_kani::view(self))))]
+    #[cfg_attr(kani, kani::ensures(|_| verif_kani::post_dec_ref_count(old(verif_kani::view(self)), verif_kani::view(self))))]
     pub(crate) fn dec_ref_count(&self) {
         self.ref_count.set(self.ref_count.get() - 1);
     }
@@ -105,22 +122,31 @@ impl GcHeader {
     ///
     /// This only gives valid result if the we have run through the
     /// tracing non roots phase.
+    #[cfg_attr(kani, kani::ensures(|r| *r == verif_kani::spec_is_rooted(verif_kani::view(self))))]
     pub(crate) fn is_rooted(&self) -> bool {
         self.non_root_count() < self.ref_count()
     }
 
     /// Sets [`GcHeader`]'s mark bit to 1.
+    #[cfg_attr(kani, kani::modifies(&self.non_root_count))]
+    #[cfg_attr(kani, kani::ensures(|_| verif_kani::post_set_mark(old(verif_kani::view(self)), verif_kani::view(self), true)))]
     pub(crate) fn mark(&self) {
         self.non_root_count
             .set(self.non_root_count.get() | MARK_MASK);
     }
 
     /// Sets [`GcHeader`]'s mark bit to 0.
+    #[cfg_attr(kani, kani::modifies(&self.non_root_count))]
+    #[cfg_attr(kani, kani::ensures(|_| verif_kani::post_set_mark(old(verif_kani::view(self)), verif_kani::view(self), false)))]
     pub(crate) fn unmark(&self) {
         self.non_root_count
             .set(self.non_root_count.get() & !MARK_MASK);
     }
 }
+
+#[cfg(kani)]
+#[path = "/verif/kani/gc/gc_header.rs"]
+mod verif_kani;
 
 impl fmt::Debug for GcHeader {
     fn fmt(&self, f: &mut fmt::Formatter<'_>) -> fmt::Result {
